@@ -65,6 +65,7 @@ type c14Case struct {
 	IsFunc   bool   `json:"is_func"`
 	Variadic bool   `json:"variadic"`
 	Named    bool   `json:"named_params"`
+	ErrLike  []int  `json:"error_like_results,omitempty"` // per result: 0 as Results says, 2 = *MyErr (implements error), 3 = named interface embedding error
 }
 
 // c14Oracle: the property, stated directly. Returns (accept, roles, returnsError).
@@ -144,6 +145,14 @@ func runC14(cfg runCfg) {
 	plain := []types.Type{c14Named("T0", types.Typ[types.Int]), c14Named("T1", types.Typ[types.Int]), c14Named("T2", types.Typ[types.Int]), c14Named("T3", types.Typ[types.Int])}
 	other := c14Named("Res", types.Typ[types.String])
 	errType := types.Universe.Lookup("error").Type()
+	// types that implement error without being the built-in error
+	myErr := c14Named("MyErr", types.NewStruct(nil, nil))
+	myErr.AddMethod(types.NewFunc(token.NoPos, c14Pkg, "Error", types.NewSignatureType(types.NewVar(token.NoPos, c14Pkg, "e", types.NewPointer(myErr)), nil, nil, nil,
+		types.NewTuple(types.NewVar(token.NoPos, c14Pkg, "", types.Typ[types.String])), false)))
+	codeSig := types.NewSignatureType(nil, nil, nil, nil, types.NewTuple(types.NewVar(token.NoPos, c14Pkg, "", types.Typ[types.Int])), false)
+	codedIface := types.NewInterfaceType([]*types.Func{types.NewFunc(token.NoPos, c14Pkg, "Code", codeSig)}, []types.Type{errType})
+	codedIface.Complete()
+	errLike := map[int]types.Type{2: types.NewPointer(myErr), 3: c14Named("CodedError", codedIface)}
 	modes := []method.ParamType{method.ParamsRequired, method.ParamsOptional, method.ParamsNone}
 	modeNames := []string{"Required", "Optional", "NoneAllowed"}
 	w := &shardWriter{dir: cfg.out, stem: "C14", max: 1000, rep: rep, off: cfg.oracleOnly,
@@ -178,7 +187,12 @@ func runC14(cfg runCfg) {
 		}
 		var res []*types.Var
 		var coqRes []string
-		for _, isErr := range c.Results {
+		for ri, isErr := range c.Results {
+			if ri < len(c.ErrLike) && c.ErrLike[ri] != 0 { // not the built-in error, although assignable to it
+				res = append(res, types.NewVar(token.NoPos, c14Pkg, "", errLike[c.ErrLike[ri]]))
+				coqRes = append(coqRes, "ROther")
+				continue
+			}
 			if isErr {
 				res = append(res, types.NewVar(token.NoPos, c14Pkg, "", errType))
 				coqRes = append(coqRes, "RErr")
@@ -305,6 +319,18 @@ func runC14(cfg runCfg) {
 				for mi := range modes {
 					for _, updReq := range []bool{false, true} {
 						run(c14Case{Kinds: kinds, Results: results, Mode: mi, UpdReq: updReq, Exported: true, IsFunc: true, Variadic: true, Named: true})
+					}
+				}
+			}
+		}
+	}
+	// results that implement error without being the built-in error (second result, or the only result of an update method)
+	for _, k := range []int{2, 3} {
+		for _, kinds := range [][]int{{3}, {1, 3}, {3, 2}, {}} {
+			for _, rs := range [][]int{{k}, {0, k}, {k, 0}} {
+				for mi := range modes {
+					for _, updReq := range []bool{false, true} {
+						run(c14Case{Kinds: kinds, Results: make([]bool, len(rs)), ErrLike: rs, Mode: mi, UpdReq: updReq, Exported: true, IsFunc: true, Named: true})
 					}
 				}
 			}
